@@ -253,3 +253,141 @@ def oracle_selftest(tier, n_sto=2000):
     if failures:
         raise HarnessError('reference interpreter fails its conformance corpus: ' + '; '.join(failures[:3]))
     return {'conformance_corpus_cases': n, 'conformance_failures': 0, 'engines': ['R (recursive)', 'M (explicit stack)']}
+
+
+# ---------------------------------------------------------------- generic program differential
+class ProgramDiff(Prop):
+    cfg = gen.Cfg
+    nqueries = 3
+    compare_db = False          # also compare the final fact database (programs with assert/retract)
+    two_readings = False        # run R in both findall readings and discard cases where they differ
+    crosscheck = {'quick': 8, 'thorough': 1}   # every n-th case is also run on the second reference engine
+    answer_limit = ANSWER_LIMIT
+    ref_steps = 20000
+    ref_depth = 60
+    genome = {'quick': 400, 'thorough': 400}
+    full_parens_choice = False  # C06: print bodies fully parenthesised in half of the cases
+    extra_clauses = ()          # fixed helper clauses appended to every program
+
+    def selftest(self, tier):
+        self._tier = tier
+        return oracle_selftest(tier)
+
+    def decode(self, src):
+        preds, clauses = gen.gen_program(src, self.cfg)
+        clauses = list(clauses) + list(self.extra_clauses)
+        queries = [self.gen_query(src, preds, clauses) for _ in range(self.nqueries)]
+        full = bool(self.full_parens_choice and src.n(2) == 1)
+        text = gen.program_text(clauses, src, full=full)
+        return {'text': text, 'clauses': clauses, 'queries': queries}
+
+    def gen_query(self, src, preds, clauses):
+        return gen.gen_query(src, preds, self.cfg, clauses)
+
+    def sample_view(self, case):
+        return {'text': case['text'], 'queries': [show(tt(q)) for q in case['queries']]}
+
+    def case_key(self, case):
+        return case['text'] + '\x00' + repr(case['queries'])
+
+    def shrink_candidates(self, case):
+        return shrink_program_case(case, plain_text)
+
+    def ref_run(self, clauses, q, **kw):
+        kw.setdefault('max_steps', self.ref_steps)
+        kw.setdefault('max_depth', self.ref_depth)
+        kw.setdefault('limit', self.answer_limit)
+        if self.two_readings and uses_findall(clauses):
+            return ref_both_readings(clauses, q, **kw)
+        return run_ref(clauses, q, **kw)
+
+    def db_keys(self, it):
+        return set(it.facts.keys()) | set(gen.DBPREDS)
+
+    _n = 0
+
+    def decide(self, case):
+        clauses = tt(case['clauses'])
+        queries = tt(case['queries'])
+        comp = compile_case(case['text'])
+        feats = clause_features(clauses)
+        if comp[0] == 'exc':
+            return FAIL(comp[1], {'text': case['text'], 'error': comp[2]})
+        code = comp[1]
+        classes = set()
+        nontrivial = False
+        decided = 0
+        self._n += 1
+        for q in queries:
+            st, ref, it = self.ref_run(clauses, q)
+            if st == 'unspec':
+                classes.add('query-unspecified')
+                continue
+            if st == 'findall-readings-differ':
+                classes.add('query-findall-readings-differ')
+                continue
+            if st == 'budget' and not ref:
+                classes.add('unbounded-no-answer')
+                continue
+            every = self.crosscheck.get(getattr(self, '_tier', 'quick'), 8)
+            if st == 'done' and self._n % every == 0:
+                st2, ref2, m2 = run_ref(clauses, q, engine='M', max_steps=self.ref_steps, max_depth=self.ref_depth,
+                                        limit=self.answer_limit)
+                if st2 == 'done' and (ref2 != ref or (self.compare_db and m2.db() != it.db())):
+                    raise HarnessError('the two reference engines disagree on %r ?- %s: R %r M %r'
+                                       % (case['text'], show(q), answers_view(ref), answers_view(ref2)))
+                classes.add('crosschecked-second-engine')
+            yps = []
+            r = impl_answers(code, q, st, ref, it.steps, yp_out=yps)
+            decided += 1
+            if r[0] == 'exc':
+                return FAIL('exception:' + r[1], {'text': case['text'], 'query': show(q), 'error': r[2],
+                                                   'expected': answers_view(ref)}, classes)
+            sig = compare_answers(st, ref, r[1], r[2])
+            if sig:
+                return FAIL(sig, {'text': case['text'], 'query': show(q), 'expected': answers_view(ref),
+                                  'observed': answers_view(r[2]), 'reference_status': st}, classes)
+            if self.compare_db and st == 'done':
+                try:
+                    got = impl.read_db(yps[0], self.db_keys(it))
+                except Exception as e:   # noqa
+                    return FAIL('exception-reading-database:' + impl.exc_signature(e), {'text': case['text'], 'query': show(q)})
+                exp = [[k, v] for k, v in it.db()]
+                got = json_norm(got)
+                if got != json_norm(exp):
+                    return FAIL('final-database-differs', {'text': case['text'], 'query': show(q),
+                                                           'expected_db': db_view(exp), 'observed_db': db_view(got)}, classes)
+            classes.add('answers:%s' % ('0' if not ref else '1' if len(ref) == 1 else 'many'))
+            if st != 'done':
+                classes.add('unbounded-prefix')
+            nt = self.nontrivial(clauses, q, st, ref, it, feats, classes)
+            nontrivial = nontrivial or nt
+        if decided == 0:
+            return DISCARD('all queries unspecified or unbounded')
+        classes |= {'feat:' + f for f in feats}
+        return OK(nontrivial, sorted(classes))
+
+    def nontrivial(self, clauses, q, st, ref, it, feats, classes):
+        if st != 'done' or it.steps < 3:
+            return False
+        ok = False
+        if len(ref) >= 2:
+            ok = True
+        if it.maxdepth_seen >= 2:
+            classes.add('recursion-depth>=2')
+            ok = True
+        if has_aliasing(ref):
+            classes.add('aliasing-in-answer')
+            ok = True
+        if feats & {'repeated-head-var', 'goal-then-fail', 'arity0'}:
+            ok = True
+        return ok
+
+
+def json_norm(x):
+    import json
+    return json.loads(json.dumps(x))
+
+
+def db_view(db):
+    return [[k, [show(tt(f)) for f in facts]] for k, facts in db]
